@@ -65,7 +65,7 @@ def analyse(prog, fn):
             if uses_var(e, v) and not is_benign_use(e, v):
                 return (v, 'use of %s by %s' % (v, short(e.get('callee'))))
         return None
-    sf = HandleUse(fn, prog, trigger=trig, track_facts=r'^(EQ\(have(Read|Write)|isValid\(|\w+$)').go()
+    sf = HandleUse(fn, prog, trigger=trig, track_facts=r'^(EQ\(have(Read|Write)|isValid\(|\w+$|EQ\(\w+\.mechanism,)').go()
     for v, hl in vars_.items():
         uses = {k[1]: hits for k, hits in sf.sites.items() if k[0] == v}
         out.append(dict(var=v, handles=hl, kinds=[classify_handle(fn, h) for h, _ in hl], uses=uses, paths=sf.paths_returned))
